@@ -1698,6 +1698,10 @@ class OR(LogicalOperator, ABC):
         if child is self.left:
             if when_false or (when_false is None):
                 required_vars.update(self.right._unique_variables_)
+                # when the left is false the right (or a rule nested in it) may conclude, its conclusions then need
+                # their variables.
+                for conc in list(self.right._conclusion_) + self.right._conclusions_of_all_descendants_:
+                    required_vars.update(conc._unique_variables_)
                 when_iam = None
             else:
                 when_iam = True
